@@ -4,6 +4,17 @@ NODE = "src/allmydata/immutable/downloader/node.py"
 SEG = "src/allmydata/immutable/downloader/segmentation.py"
 FN = "src/allmydata/immutable/filenode.py"
 LIT = "src/allmydata/immutable/literal.py"
+FETCHER = "src/allmydata/immutable/downloader/fetcher.py"
+
+PAST_END_TEST = "        if authoritative and self.segnum >= numsegs:\n"
+PAST_END_BODY = ("            # oops, we were asking for a segment number beyond the end of the\n"
+                 "            # file. This is an error.\n"
+                 "            self.stop()\n"
+                 "            e = BadSegmentNumberError(\"segnum=%d, numsegs=%d\" %\n"
+                 "                                      (self.segnum, self._node.num_segments))\n"
+                 "            f = Failure(e)\n"
+                 "            self._node.fetch_failed(self, f)\n"
+                 "            return\n")
 
 GUARD = ("        if not self._alive or not self._hungry:\n            return\n        if self._active_segnum is not None:\n"
          "            return\n        self._fetch_next()\n")
@@ -16,6 +27,63 @@ STOP_HELPER = ("    def _stop_active_segment(self):\n        if self._active_seg
                "            seg, self._active_segment = self._active_segment, None\n            seg.stop()\n\n"
                "    def stop(self):\n        # called by the Terminator at shutdown, mostly for tests\n"
                "        self._stop_active_segment()\n        self._sharefinder.stop()\n")
+
+# ---- the completion of a decoded segment runs on a later turn (C04.8 exemption, C04.13)
+CAPTURE = "        fetcher = self._active_segment\n"
+DECODE = "        d = self._decode_blocks(segnum, blocks)\n"
+DELIVER_HEAD = "        def _deliver(result):\n"
+GUARD_TEST = "            if self._active_segment is not fetcher:\n"
+GUARD_BODY = ("                # nobody wants this segment any more, and the next fetch (if\n"
+              "                # any) has already been started: leave it alone\n"
+              "                log.msg(format=\"discarding segment(%(segnum)d):\"\n"
+              "                        \" abandoned while it was being decoded\",\n"
+              "                        segnum=segnum,\n"
+              "                        level=log.NOISY, parent=self._lp, umid=\"5Zp1xQ\")\n"
+              "                return\n")
+DELIVER_REST = ("            log.msg(format=\"delivering segment(%(segnum)d)\",\n"
+                "                    segnum=segnum,\n"
+                "                    level=log.OPERATIONAL, parent=self._lp,\n"
+                "                    umid=\"j60Ojg\")\n"
+                "            when = now()\n"
+                "            if isinstance(result, Failure):\n"
+                "                # this catches failures in decode or ciphertext hash\n"
+                "                self._active_segment = None\n"
+                "                for (d,c,seg_ev) in self._extract_requests(segnum):\n"
+                "                    seg_ev.error(when)\n"
+                "                    eventually(self._deliver, d, c, result)\n"
+                "            else:\n"
+                "                (offset, segment, decodetime) = result\n"
+                "                self._active_segment = None\n"
+                "                for (d,c,seg_ev) in self._extract_requests(segnum):\n"
+                "                    # when we have two requests for the same segment, the\n"
+                "                    # second one will not be \"activated\" before the data is\n"
+                "                    # delivered, so to allow the status-reporting code to see\n"
+                "                    # consistent behavior, we activate them all now. The\n"
+                "                    # SegmentEvent will ignore duplicate activate() calls.\n"
+                "                    # Note that this will result in an inaccurate \"receive\n"
+                "                    # speed\" for the second request.\n"
+                "                    seg_ev.activate(when)\n"
+                "                    seg_ev.deliver(when, offset, len(segment), decodetime)\n"
+                "                    eventually(self._deliver, d, c, result)\n"
+                "            self._download_status.add_misc_event(\"process_block\", start, now())\n"
+                "            self._start_new_segment()\n")
+REGISTER = "        d.addBoth(_deliver)\n"
+BEFORE_DECODE_BLOCKS = "    def _decode_blocks(self, segnum, blocks):\n"
+FAILURE_RESET = "                # this catches failures in decode or ciphertext hash\n                self._active_segment = None\n"
+SUCCESS_RESET = "                (offset, segment, decodetime) = result\n                self._active_segment = None\n"
+
+
+def _deeper(text, by=4):
+    return "".join((" " * by + ln) if ln.strip() else ln for ln in text.splitlines(True))
+
+
+# the guard hoisted into helpers
+HELPER_NESTED = "        def _abandoned():\n            return self._active_segment is not fetcher\n"
+HELPER_METHOD = "    def _overtaken(self, fetcher):\n        return self._active_segment is not fetcher\n\n"
+HELPER_UNREADABLE = ("        def _abandoned():\n            if self._active_segment is fetcher:\n                return False\n"
+                     "            return True\n")
+# the capture moved behind the asynchronous gap: the comparison is with what the slot holds *now*
+CAPTURE_INSIDE = [(NODE, DELIVER_HEAD, DELIVER_HEAD + "            fetcher = self._active_segment\n")]
 
 MUTANTS = [
     # ---- C04.1 isolation
@@ -277,7 +345,106 @@ MUTANTS = [
       "        # _read_ev.update with how much decrypt_time was consumed\n", None,
       edits=[(SEG, "        d.addCallback(self._got_segment, wanted_segnum)\n",
               "        d.addCallback(self._got_segment, wanted_segnum)\n        d.addCallback(lambda ign: self._maybe_fetch_next())\n")]),
+    # ---- C04.12 a wrongly guessed segment past the end of the file is failed with an error the retry recovers from
+    M("past-end-check-off-by-one", FETCHER, PAST_END_TEST, "        if authoritative and self.segnum > numsegs:\n", "C04.12"),  # seeded C04-C
+    M("past-end-check-off-by-one-count-first", FETCHER, PAST_END_TEST, "        if authoritative and numsegs < self.segnum:\n", "C04.12"),
+    M("past-end-check-removed", FETCHER, PAST_END_TEST + PAST_END_BODY, "", "C04.12"),
+    M("past-end-check-only-while-guessing", FETCHER, PAST_END_TEST, "        if not authoritative and self.segnum >= numsegs:\n", "C04.12"),
+    M("past-end-check-rejects-last-segment", FETCHER, PAST_END_TEST, "        if authoritative and self.segnum >= numsegs - 1:\n", "C04.12"),
+    M("past-end-count-and-flag-swapped", FETCHER, "        numsegs, authoritative = self._node.get_num_segments()\n",
+      "        authoritative, numsegs = self._node.get_num_segments()\n", "C04.12"),
+    M("past-end-reported-as-not-enough-shares", FETCHER, "            e = BadSegmentNumberError(\"segnum=%d, numsegs=%d\" %\n",
+      "            e = NotEnoughSharesError(\"segnum=%d, numsegs=%d\" %\n", "C04.12"),
+    M("retry-traps-only-wrong-segment", SEG, "        f.trap(WrongSegmentError, BadSegmentNumberError)\n",
+      "        f.trap(WrongSegmentError)\n", "C04.12"),
+    M("retry-traps-only-bad-segnum", SEG, "        f.trap(WrongSegmentError, BadSegmentNumberError)\n",
+      "        f.trap(BadSegmentNumberError)\n", "C04.12"),
+    M("num-segments-never-authoritative", NODE, "        return (self.num_segments, True)\n",
+      "        return (self.num_segments, False)\n", "C04.12"),
+    M("num-segments-authoritative-only-while-guessing", NODE,
+      "        if self.num_segments is None:\n            return (self.guessed_num_segments, False)\n        return (self.num_segments, True)\n",
+      "        if self.num_segments is None:\n            return (self.num_segments, True)\n        return (self.guessed_num_segments, False)\n",
+      "C04.12"),
+    M("benign-past-end-check-negated", FETCHER, PAST_END_TEST, "        if authoritative and not (self.segnum < numsegs):\n", None),
+    M("benign-past-end-check-count-first", FETCHER, PAST_END_TEST, "        if authoritative and numsegs <= self.segnum:\n", None),
+    M("benign-past-end-check-minus-one", FETCHER, PAST_END_TEST, "        if authoritative and self.segnum > numsegs - 1:\n", None),
+    M("benign-past-end-check-in-a-temporary", FETCHER, PAST_END_TEST,
+      "        in_range = self.segnum < numsegs\n        if authoritative and not in_range:\n", None),
+    M("benign-past-end-check-on-node-attributes", FETCHER, PAST_END_TEST,
+      "        if self._node.num_segments is not None and self.segnum >= self._node.num_segments:\n", None),
+    M("benign-past-end-failure-inline", FETCHER, PAST_END_BODY,
+      "            self.stop()\n            self._node.fetch_failed(self, Failure(BadSegmentNumberError(\n"
+      "                \"segnum=%d, numsegs=%d\" % (self.segnum, numsegs))))\n            return\n", None),
+    M("benign-retry-trap-reordered", SEG, "        f.trap(WrongSegmentError, BadSegmentNumberError)\n",
+      "        f.trap(BadSegmentNumberError, WrongSegmentError)\n", None),
+    M("benign-num-segments-known-first", NODE,
+      "        if self.num_segments is None:\n            return (self.guessed_num_segments, False)\n        return (self.num_segments, True)\n",
+      "        if self.num_segments is not None:\n            return (self.num_segments, True)\n        return (self.guessed_num_segments, False)\n",
+      None),
+    # ---- C04.8: an exit of the completion is exempt only behind `_active_segment is not <value read from it before the gap>`
+    M("completion-returns-early-on-unrelated-test", NODE, DELIVER_HEAD,
+      DELIVER_HEAD + "            if not self._segment_requests:\n                return\n", "C04.8"),
+    M("completion-returns-early-when-slot-empty", NODE, DELIVER_HEAD,
+      DELIVER_HEAD + "            if self._active_segment is None:\n                return\n", "C04.8"),
+    M("completion-early-exit-compares-with-value-read-after-the-gap", NODE, CAPTURE + DECODE, DECODE, "C04.8", edits=CAPTURE_INSIDE),
+    M("completion-capture-clears-the-slot", NODE, CAPTURE, "        fetcher, self._active_segment = self._active_segment, None\n",
+      "C04.8"),
+    M("benign-completion-guard-nested", NODE, GUARD_TEST + GUARD_BODY + DELIVER_REST,
+      "            if self._active_segment is fetcher:\n" + _deeper(DELIVER_REST), None),
+    M("benign-completion-guard-operands-swapped", NODE, GUARD_TEST, "            if fetcher is not self._active_segment:\n", None),
+    M("benign-completion-guard-not-is", NODE, GUARD_TEST, "            if not (fetcher is self._active_segment):\n", None),
+    M("benign-completion-guard-ne", NODE, GUARD_TEST, "            if self._active_segment != fetcher:\n", None),
+    M("benign-completion-guard-flag", NODE, GUARD_TEST,
+      "            overtaken = self._active_segment is not fetcher\n            if overtaken:\n", None),
+    M("benign-completion-guard-in-nested-helper", NODE, DELIVER_HEAD + GUARD_TEST,
+      HELPER_NESTED + DELIVER_HEAD + "            if _abandoned():\n", None),
+    M("benign-completion-guard-in-method", NODE, GUARD_TEST, "            if self._overtaken(fetcher):\n", None,
+      edits=[(NODE, BEFORE_DECODE_BLOCKS, HELPER_METHOD + BEFORE_DECODE_BLOCKS)]),
+    M("completion-guard-in-unreadable-helper", NODE, DELIVER_HEAD + GUARD_TEST,
+      HELPER_UNREADABLE + DELIVER_HEAD + "            if _abandoned():\n", "ANALYSIS-ERROR"),
+    M("benign-completion-capture-as-callback-argument", NODE, DELIVER_HEAD + GUARD_TEST,
+      "        def _deliver(result, mine):\n            if self._active_segment is not mine:\n", None,
+      edits=[(NODE, REGISTER, "        d.addBoth(_deliver, fetcher)\n")]),
+    M("benign-completion-slot-read-at-registration", NODE, DELIVER_HEAD + GUARD_TEST,
+      "        def _deliver(result, mine):\n            if self._active_segment is not mine:\n", None,
+      edits=[(NODE, REGISTER, "        d.addBoth(_deliver, self._active_segment)\n"), (NODE, CAPTURE, "")]),
+    M("benign-completion-capture-after-decode-started", NODE, CAPTURE + DECODE, DECODE + CAPTURE, None),
+    M("benign-completion-capture-copied", NODE, CAPTURE, "        active = self._active_segment\n        fetcher = active\n", None),
+    # ---- C04.13 code that runs after the gap touches the slot only when it still owns it
+    M("completion-guard-removed", NODE, GUARD_TEST + GUARD_BODY, "", "C04.13"),          # the defect repaired by 189a9a9
+    M("hash-check-asserts-active-segment", NODE, "        start = now()\n        assert self.segment_size is not None\n",
+      "        start = now()\n        assert self._active_segment.segnum == segnum\n        assert self.segment_size is not None\n",
+      "C04.13"),                                                                          # the other half of that defect
+    M("completion-guard-compares-with-value-read-after-the-gap", NODE, CAPTURE + DECODE, DECODE, "C04.13", edits=CAPTURE_INSIDE),
+    M("completion-guard-only-on-success-branch", NODE, GUARD_TEST + GUARD_BODY, "", "C04.13",
+      edits=[(NODE, "            else:\n" + SUCCESS_RESET,
+              "            else:\n                if self._active_segment is not fetcher:\n                    return\n" + SUCCESS_RESET)]),
+    M("completion-guard-only-on-failure-branch", NODE, GUARD_TEST + GUARD_BODY, "", "C04.13",
+      edits=[(NODE, FAILURE_RESET, "                if self._active_segment is not fetcher:\n                    return\n" + FAILURE_RESET)]),
+    M("completion-resets-through-unguarded-helper", NODE, GUARD_TEST + GUARD_BODY, "", "C04.13",
+      edits=[(NODE, FAILURE_RESET, "                self._segment_finished()\n"),
+             (NODE, SUCCESS_RESET, "                (offset, segment, decodetime) = result\n                self._segment_finished()\n"),
+             (NODE, BEFORE_DECODE_BLOCKS, "    def _segment_finished(self):\n        self._active_segment = None\n\n" + BEFORE_DECODE_BLOCKS)]),
+    M("completion-guard-checks-only-for-none", NODE, GUARD_TEST, "            if self._active_segment is None:\n", "C04.13"),
+    M("completion-capture-rebound-before-return", NODE, REGISTER,
+      REGISTER + "        fetcher = None\n", "C04.13"),
+    M("benign-completion-resets-through-helper-behind-guard", NODE, FAILURE_RESET, "                self._segment_finished()\n", None,
+      edits=[(NODE, SUCCESS_RESET, "                (offset, segment, decodetime) = result\n                self._segment_finished()\n"),
+             (NODE, BEFORE_DECODE_BLOCKS, "    def _segment_finished(self):\n        self._active_segment = None\n\n" + BEFORE_DECODE_BLOCKS)]),
+    M("benign-completion-restarts-on-next-turn", NODE,
+      "            self._download_status.add_misc_event(\"process_block\", start, now())\n            self._start_new_segment()\n",
+      "            self._download_status.add_misc_event(\"process_block\", start, now())\n            eventually(self._start_new_segment)\n",
+      None),
+    # the synchronous retirers are not continuations: rewriting them does not concern C04.13 (nor trip the other rules)
+    M("benign-synchronous-retirers-rewritten", NODE, "        assert sf is self._active_segment\n",
+      "        assert self._active_segment is sf\n", None,
+      edits=[(NODE, "            seg, self._active_segment = self._active_segment, None\n            seg.stop()\n            self._start_new_segment()\n",
+              "            seg = self._active_segment\n            self._active_segment = None\n            seg.stop()\n"
+              "            self._start_new_segment()\n")]),
+    M("benign-fetch-failed-looks-at-the-active-fetcher", NODE, "        assert sf is self._active_segment\n",
+      "        assert sf is self._active_segment and self._active_segment.segnum == sf.segnum\n", None),
     # ---- vanished anchor
     M("vanish-resume-producing", SEG, "    def resumeProducing(self):", "    def _resume_producing(self):", "ANALYSIS-ERROR"),
+    M("vanish-get-num-segments", NODE, "    def get_num_segments(self):", "    def get_num_segments_(self):", "ANALYSIS-ERROR"),
     M("vanish-cancel-request", NODE, "    def _cancel_request(self, cancel):", "    def _cancel_requestX(self, cancel):", "ANALYSIS-ERROR"),
 ]
